@@ -267,6 +267,8 @@ class AbsExec:
                     t = self._project(a.frame, a.frame.env.get(a.local, TOP), a.proj)
                     if isinstance(t, Tup):
                         return len(t.items)
+                if isinstance(a, Tup):
+                    return len(a.items)      # a slice the domain holds by value
                 return TOP
             return TOP
         if k == "aggregate":
